@@ -10,6 +10,8 @@ import (
 	"fmt"
 	"net"
 	"net/http"
+	"runtime"
+	"runtime/debug"
 	"testing"
 	"time"
 
@@ -22,14 +24,23 @@ import (
 func TestVerifC16InFlight(t *testing.T) {
 	r := vNewRand(vSeed() + 161)
 	for _, role := range []string{"server-calls", "client-calls"} {
-		vC16InFlight(r, role)
+		vC16InFlight(r, role, false)
 	}
+	// the same on one processor with the collector off (both legitimate settings): what the library gives back to a free
+	// list is then what it gets from it the next time
+	old := runtime.GOMAXPROCS(1)
+	gc := debug.SetGCPercent(-1)
+	for _, role := range []string{"server-calls", "client-calls"} {
+		vC16InFlight(r, role, true)
+	}
+	debug.SetGCPercent(gc)
+	runtime.GOMAXPROCS(old)
 }
 
-func vC16InFlight(r *vRand, role string) {
+func vC16InFlight(r *vRand, role string, pinned bool) {
 	skey, ckey := vGenKey(r), vGenKey(r)
-	info := map[string]interface{}{"role": role, "outcome": "ok"}
-	c := vCase{Class: "frame-in-flight/" + role, Sig: "frame-in-flight/" + role, Info: info}
+	info := map[string]interface{}{"role": role, "outcome": "ok", "one_processor_no_collector": pinned}
+	c := vCase{Class: "frame-in-flight/" + role, Sig: fmt.Sprint("frame-in-flight/", role, "/", pinned), Info: info}
 	defer func() { vEmit(c) }()
 	small := func(nc net.Conn, err error) (net.Conn, error) {
 		if err == nil {
